@@ -51,6 +51,8 @@ def spec_lines(chk, quick, frac):
                         lines.append(genmon.dbd_line(table, iso, level, mode, (e0 * (1 - 2.0 ** -k), 4.3), work_bound=wb if wide else 0))
                     kk = rng.randint(1, 5)
                     lines.append(genmon.dbd_line(table, iso, level, mode, (0.0, e0 * 2.0 ** -kk), work_bound=wb if e0 * 2.0 ** -kk >= 1 / 64.0 else 0))
+    # the witness of the known mode-10 finding is in every run: Cd106 -> Pd106 g.s., 2nuKb+, window [1.70, 1.7289] MeV at the end-point
+    lines.append(genmon.dbd_line(table, "Cd106", 0, 10, (1.70, 1.7289), work_bound=0))
     return lines, skipped
 
 
@@ -89,8 +91,10 @@ def main():
         if not r["accepted"]:
             if "/w" in r["config"] and "draw cap" in (r.get("init_error") or ""):
                 if "/m10/" in r["config"]:
-                    # mode 10 in a window in the tail of the positron spectrum: legitimately tiny acceptance (see above)
+                    # mode 10 in a window in the tail of the positron spectrum: acceptance f(E)/f_max of the whole spectrum (inherited from
+                    # the reference) - practically unbounded work; one class of finding (known_findings.txt), still listed in the evidence
                     slow.append({"config": r["config"], "note": "initialisation shot cut by the draw cap"})
+                    chk.violation("unbounded-work|m10-window|" + r["config"], "%s: the event generated during initialisation consumed more than 2e6 deviates" % r["config"], {"config": r["config"]})
                 else:
                     chk.violation(r["config"] + "|unbounded-draws-at-initialisation", "%s: the initialisation consumed more than 2e6 deviates" % r["config"], {"config": r["config"]})
             if r["config"].startswith("bkg/"):
@@ -106,9 +110,11 @@ def main():
         for m in r["wellformed"]:
             if m["key"].endswith("|unbounded-draws") and r["window"] and r["mode"] == 10 and isinstance(r["toallevents"], (int, float)) and r["toallevents"] > 300:
                 # mode 10 (one positron sampled by rejection under the maximum of the whole spectrum, as in the reference) inside a
-                # window that holds less than 1/300 of the spectrum: the acceptance is legitimately below ~1e-3 and the draw cap
-                # proves nothing; reported, never a verdict
+                # window that holds less than 1/300 of the spectrum: the acceptance is below ~1e-3 and falls without bound towards the
+                # end-point: a finding of its own class (the sampler of the reference, see DESIGN 7.3), not mixed with other cut shots
                 slow.append({"config": r["config"], "toallevents": r["toallevents"], "shots_cut": m["count"]})
+                chk.violation("unbounded-work|m10-window|" + r["config"], "%s: %s [%d events; full/window ratio %.3g]" % (r["config"], m["detail"], m["count"], r["toallevents"]),
+                              {"config": r["config"], "cmd": exe, **m})
                 continue
             chk.violation(m["key"], "%s: %s [%d events; steering: %s]" % (r["config"], m["detail"], m["count"], m["steer"] or "i.i.d."),
                           {"config": r["config"], "cmd": exe, **m})
